@@ -11,6 +11,10 @@ theorem join_two_ranged_ne (vs ve us ue : Int) (a b c d : Bool) (h : ve ≠ us) 
     join [ranged vs ve a b, ranged us ue c d] = joined [ranged vs ve a b, ranged us ue c d] := by
   simp [join, joinD, pushAllD, pushFuel, pushD, pushW, pushOne, ofParts, h]
 
+theorem join_two_ranged_abut (vs m ue : Int) (a b c d : Bool) :
+    join [ranged vs m a b, ranged m ue c d] = ranged vs ue a d := by
+  simp [join, joinD, pushAllD, pushFuel, pushD, pushW, pushOne, ofParts]
+
 theorem order_two_ambiguous (a b c d : Int) :
     order [ambiguous a b, ambiguous c d] = ordered [ambiguous a b, ambiguous c d] := by
   simp [order, flattenOrdList, flattenOrd]
